@@ -125,6 +125,18 @@ func buildRep(v any) reflect.Value {
 		if rep == "nilptr" { // a typed nil pointer: also JSON null (stored in an interface it is a NON-nil interface value)
 			out = reflect.Zero(reflect.TypeOf((*int)(nil)))
 		}
+		// null behind two levels of indirection: the outer pointer nil, or the outer pointer set and the inner
+		// pointer / interface nil (all of them JSON null; the Go types of each pair are identical)
+		switch rep {
+		case "nilpp":
+			out = reflect.Zero(reflect.TypeOf((**int)(nil)))
+		case "ptrnilp":
+			out = reflect.ValueOf(new(*int))
+		case "nilpany":
+			out = reflect.Zero(reflect.TypeOf((*any)(nil)))
+		case "ptrnilany":
+			out = reflect.ValueOf(new(any))
+		}
 	case "bool":
 		out = reflect.ValueOf(m["b"].(bool))
 	case "num":
